@@ -303,8 +303,10 @@ def _do_py(env, u, op, other):
     return PYOPS[op](u, other)
 
 
-def _tpl_source(origin, op):
-    e = TPL_EXPR[origin]
+def _tpl_source(origin, op, via_context=False):
+    # via_context: the undefined value was produced by the engine beforehand and reaches the template as the
+    # context variable "uv" (as after {% set uv = missing %}{% include %}, or a value handed on by the caller)
+    e = "uv" if via_context else TPL_EXPR[origin]
     o = "w"
     table = {
         "str": "{{ %s }}" % e, "bool": "{{ 'T' if %s else 'F' }}" % e,
@@ -373,7 +375,7 @@ def check_case(case):
     ut, origin, op, operand, route = case["ut"], case["origin"], case["op"], case["operand"], case["route"]
     base = ut[4:] if ut.startswith("log_") else ut
     logging_type = ut.startswith("log_")
-    env = st["envs"][("async:" + ut) if route == "atpl" else ut]
+    env = st["envs"][("async:" + ut) if route.startswith("atpl") else ut]
     UE = st["UndefinedError"]
     exp = expected(base, origin, op, operand)
     nontrivial = not (ut == "default" and op in ("str", "bool"))
@@ -430,8 +432,10 @@ def check_case(case):
                 if not any(lv == "WARNING" and NAME_IN_MSG[origin] in m for lv, m in cap.records):
                     raise core.Violation("%s: logging undefined did not log a warning (%r)" % (desc, cap.records))
     else:
-        src = _tpl_source(origin, op)
+        src = _tpl_source(origin, op, via_context=route.endswith("v"))
         ctx = {"o": Obj(), "d": {"x": 1}, "l": [1, 2], "l0": [], "mk": lambda: env.undefined(HINT), "w": other}
+        if route.endswith("v"):
+            ctx["uv"] = _make(st["envs"][ut], origin)  # compile_expression is sync-only
         try:
             got = ("val", env.from_string(src).render(ctx))
         except UE as e:
@@ -466,11 +470,14 @@ def all_cases():
                 yield {"ut": ut, "origin": origin, "op": op, "operand": None, "route": "tpl"}
                 # the same template in an enable_async environment (async iteration protocol, auto_await)
                 yield {"ut": ut, "origin": origin, "op": op, "operand": None, "route": "atpl"}
+                # the value reaches the template through the context instead of being produced in place
+                yield {"ut": ut, "origin": origin, "op": op, "operand": None, "route": "tplv"}
+                yield {"ut": ut, "origin": origin, "op": op, "operand": None, "route": "atplv"}
         for operand in OPERANDS:
             ops = ["contains_in_u", "u_in_list", "==", "!=", "r==", "r!="]
             ops += BINOPS + ["r" + o for o in BINOPS] + CMPOPS + ["r" + o for o in CMPOPS]
             for op in ops:
-                for route in ("py", "tpl", "atpl"):
+                for route in ("py", "tpl", "atpl", "tplv"):
                     yield {"ut": ut, "origin": origin, "op": op, "operand": operand, "route": route}
 
 
